@@ -66,6 +66,8 @@ val map : ('a1 -> 'a2) -> 'a1 list -> 'a2 list
 
 val flat_map : ('a1 -> 'a2 list) -> 'a1 list -> 'a2 list
 
+val fold_left : ('a1 -> 'a2 -> 'a1) -> 'a2 list -> 'a1 -> 'a1
+
 val existsb : ('a1 -> bool) -> 'a1 list -> bool
 
 val filter : ('a1 -> bool) -> 'a1 list -> 'a1 list
@@ -139,6 +141,25 @@ val reduce_in_scope : flags -> modenv -> hierarchy -> bool
 val decide : flags -> modenv -> hierarchy -> decision
 
 val compile_error : flags -> modenv -> hierarchy -> bool
+
+type wstate = { w_members : member list; w_cinit : bool; w_reduce : bool }
+
+type scope_sel = cls -> cls -> cls
+
+val sel_cls : scope_sel
+
+val sel_node : scope_sel
+
+val walk_step : scope_sel -> scope_sel -> cls -> wstate -> cls -> wstate
+
+val walk : scope_sel -> scope_sel -> cls -> hierarchy -> wstate
+
+val decide_core : flags -> bool -> bool -> member list -> decision
+
+val decide_walk :
+  scope_sel -> scope_sel -> flags -> modenv -> hierarchy -> decision
+
+val decide_walk_n : nat -> flags -> modenv -> hierarchy -> decision
 
 val installed : hierarchy -> bool
 
